@@ -172,6 +172,10 @@ func firstName(f *ast.Field) string {
 
 func findAssignedFieldPaths(funcDecl *ast.FuncDecl, v string) []string {
 	var fieldPath []string
+	if funcDecl.Body == nil {
+		//a declaration without body assigns nothing
+		return fieldPath
+	}
 	if v == "" || v == "_" {
 		//nothing can be assigned through an unnamed variable
 		return fieldPath
